@@ -115,6 +115,9 @@ def impl(case):
     world = np.array([ra, dec], dtype=float).T
     for i in case.get("nan_at", []):
         world[i, 0] = np.nan
+    for i in case.get("antipode_at", []):
+        # a finite world point in the opposite hemisphere: the fitted initial guess is NaN there
+        world[i] = [(p["crval"][0] + 180.0) % 360.0, -p["crval"][1]]
     m = case["mode"]
     _SNAP.clear()
     res = {}
@@ -282,9 +285,12 @@ def gen(rng, tier):
         nan_at = [rng.randrange(len(pix))] if rng.random() < 0.35 else []
         for i in nan_at:
             where[i] = "nan"
+        anti = [i for i in range(len(pix)) if i not in nan_at and rng.random() < 0.08] if not designed else []
+        for i in anti:
+            where[i] = "far"
         if designed:
             mode = {"adaptive": rng.random() < 0.5, "detect_divergence": rng.random() < 0.5, "maxiter": 50, "tolerance": rng.choice([1e-5, 1e-5, 1e-4, 1e-3])}
         else:
             mode = {"adaptive": rng.random() < 0.5, "detect_divergence": rng.random() < 0.5, "maxiter": rng.choice([1, 2, 3, 5, 20, 50]),
                     "tolerance": rng.choice([1e-5, 1e-7, 1e-3, 1e-9])}
-        yield {"params": p, "pix": pix, "where": where, "nan_at": nan_at, "mode": mode, "designed": designed}
+        yield {"params": p, "pix": pix, "where": where, "nan_at": nan_at, "antipode_at": anti, "mode": mode, "designed": designed}
